@@ -749,3 +749,16 @@ CONFIGS['ps_list_quick'] = dict(_BASE, immediate=True, max_chan=1,
                                          ('list', ['s1', 's2']),
                                          ('list', ['s2', 'r1'])],
                                 emit_skip=[('none', []), ('one', ['s2'])])
+
+# larger scope, seeded random histories only
+CONFIGS['ps_walk_big'] = dict(
+    _BASE, hosts=['h1', 'h2', 'h3'],
+    host_of={'t1': 'h1', 't2': 'h2', 't3': 'h3', 't4': 'h1'},
+    transports=['t1', 't2', 't3', 't4'], ns_h=['/', '/a'],
+    ns_all=['/', '/a'], ns_api=['/', '/a'], max_sid=6, max_ack=3,
+    rooms=['r1', 'r2'], immediate=False, max_chan=5, write_only=True,
+    emit_to=[('none', []), ('one', ['r1']), ('one', ['s2']),
+             ('list', ['r1', 'r2']), ('list', ['s1', 's3', 'r2'])],
+    emit_skip=[('none', []), ('one', ['s1']), ('list', ['s2', 's3'])],
+    cb_to=['s1', 's2', 's3'], ack_ids=[1, 2, 3],
+    ack_args=[[], ['v1'], ['v1', 'v2']])
